@@ -10,9 +10,11 @@ from .visualisation.dimensionality_reduction import DimensionalityReducer
 def get_individual_id(individual: Individual) -> str:
     """
     Tree structure in `treelib` requires identifiers for nodes. This function returns
-    a string representation of the individual's genome, which usually is unique for each individual.
+    an exact string representation of the individual's genome (the shortest round-trip repr of every
+    coordinate), which is unique for each distinct genome. `str(genome)` prints only 8 significant
+    digits, so individuals of a converged population shared identifiers and were dropped from the tree.
     """
-    return str(individual.genome)
+    return "[" + " ".join(repr(float(x)) for x in np.ravel(individual.genome)) + "]"
 
 
 class NearestBetterClustering:
